@@ -26,6 +26,9 @@ def scale(  # pylint: disable=dangerous-default-value  # always replaced by stat
     """
 
     data = numpy.array(data)
+    if data.dtype.kind in "iub":
+        # Integer arithmetic silently overflows when squaring the data below.
+        data = data.astype(numpy.float64)
 
     if "ddof" not in _state:
         _state["ddof"] = ddof
